@@ -7,7 +7,7 @@ VERIF = os.path.dirname(os.path.dirname(os.path.abspath(__file__)))
 ALL = ["C%02d" % i for i in range(1, 21)]
 
 LEVEL_TEXT = {
- "C01": "proof: closed forms of both RNEA passes and the d'Alembert form for every tree, single-body Newton-Euler, power invariance, NonlinearEffects = RNEA(0) are theorems about the code-shaped model (all inputs); the last composition with the jet specification is carried per joint type / per step by C06 and end-to-end by the spec monitor on every run",
+ "C01": "proof: inverseDynamics of the code-shaped model EQUALS the first-principles Newton-Euler / d'Alembert specification (jets of the pose composition) for arbitrary trees, all joint types, fixed bodies, external forces, every workspace (capstone theorem, with the refinement relation established by construction for single-body joints, fixed joints and floating base); plus closed forms of both passes and NonlinearEffects = RNEA(0); the specification is also monitored against the C++ on every run",
  "C02": "proof: RNEA(ABA(tau)) = tau and the M^-1 tau route for every tree-ordered model, every workspace, 1-DoF / 3-DoF / custom blocks, under exactly the non-zero pivots the C++ divides by; Lagrangian solvers by certificate (solver-independent by C03)",
  "C03": "proof: composite inertias, CRBA entries, symmetry, off-path zeros, RNEA affine in qddot, RNEA unit column = CRBA column, tau = H qddot + N, LTL factorisation and triangular solves for all n (abstract square root)",
  "C04": "proof: every joint transform is the documented pose, X_base is the pose composition along the path, rotations stay rotations, base<->body conversions inverse for movable and fixed ids; spec monitor on every run",
